@@ -27,7 +27,7 @@ EXPLANATION = (
     "AssertionError); assertion messages cannot themselves raise."
 )
 NOT_DECIDED = "implicit exceptions raised inside pandas/numpy (KeyError/TypeError) cannot be excluded statically"
-FLOORS = {"R-check-before-replace": 4, "R-default-formula": 2, "R-nan-assert": 2, "R-total-cover": 3, "R-missing-columns": 2, "R-names-feature": 2, "R-assert-only": 2, "R-index-kept": 1, "R-forward-sentinels": 8, "R-numeric-only-call": 4}
+FLOORS = {"R-check-before-replace": 4, "R-default-formula": 2, "R-nan-assert": 3, "R-label-alignment": 2, "R-total-cover": 3, "R-missing-columns": 2, "R-names-feature": 2, "R-assert-only": 2, "R-index-kept": 1, "R-forward-sentinels": 8, "R-numeric-only-call": 4}
 
 
 def rule_check_before_replace(ctx):
@@ -148,6 +148,17 @@ def rule_nan_assert(ctx):
             ok, gcond, guard = True, unparse(conds[0][0]), a
     ctx.ob(R, construct(fi, "missing values at transform require str_nan to be a fitted modality"), ok, loc(fi, guards[0] if guards else None),
            "" if ok else "missing values in a feature that had none at fit would silently pass through or get an arbitrary label")
+    # the scan for missing values is unconditional and over the whole column: every dtype can hold
+    # a missing value (nullable Int64 / boolean hold pandas.NA), so no dtype shortcut may skip it
+    scans = [n for n in walk_no_nested(fi.node) if isinstance(n, ast.Assign) and unparse(n.targets[0]) == "nans"]
+    ok_scan = len(scans) == 1 and unparse(scans[0].value).replace(" ", "") in ("isna(df_feature)", "df_feature.isna()", "isnull(df_feature)", "df_feature.isnull()") and not cfg.path_conditions(scans[0])
+    defs_ = single_defs(fi.node)
+    tests_ok = True
+    if ok:
+        t = unparse(inline(fi.node, ast.parse(gcond, mode="eval").body, defs={k: v for k, v in defs_.items() if k != "nans"})).replace(" ", "")
+        tests_ok = t in ("any(nans)", "nans.any()", "bool(nans.any())", "bool(any(nans))")
+    ctx.ob(R, construct(fi, "the missing-value scan covers the whole column, whatever its dtype"), ok_scan and tests_ok, loc(fi, scans[0] if scans else None),
+           "" if (ok_scan and tests_ok) else "the scan is skipped or narrowed under a condition: a missing value in such a column reaches numpy.select (TypeError) instead of the assertion that names the feature")
     if not ok:
         return
     # every write at the missing rows happens under the same test, after the assertion
@@ -222,6 +233,9 @@ def check(ctx):
     rule_check_before_replace(ctx)
     rule_default_formula(ctx)
     rule_nan_assert(ctx)
+    from . import c04
+
+    c04.rule_label_alignment(ctx)
     rule_total_cover(ctx)
     rule_missing_columns(ctx)
     rule_names_feature(ctx)
@@ -239,6 +253,8 @@ def check(ctx):
 MUTANTS = [
     M("check after replace", [(F_BASE, "        # checking that all unique values in X are in values_orders\n        X = self._check_new_values(X, features=self.qualitative_features)\n\n        # replacing values for there corresponding label\n        X = X.replace(\n            {\n                feature: label_per_value\n                for feature, label_per_value in self.labels_per_values.items()\n                if feature in self.qualitative_features\n            }\n        )\n",
        "        # replacing values for there corresponding label\n        X = X.replace(\n            {\n                feature: label_per_value\n                for feature, label_per_value in self.labels_per_values.items()\n                if feature in self.qualitative_features\n            }\n        )\n        X = self._check_new_values(X, features=self.qualitative_features)\n")], "R-check-before-replace", "dominates", quick=True),
+    M("missing-value scan skipped for integer / boolean dtypes", [(F_BASE, "    nans = isna(df_feature)\n", "    nans = isna(df_feature) if df_feature.dtype.kind not in 'iub' else isna(df_feature.iloc[:0].reindex(df_feature.index))\n")], "R-nan-assert", "whole column"),
+    M("str_default left without label", [(F_BASE, "                for value in values.get(group_of_values):\n                    label_per_value.update({value: label})\n", "                for value in values.get(group_of_values):\n                    if value != self.str_default:\n                        label_per_value.update({value: label})\n")], "R-label-alignment", "label k is given"),
     M("check only when verbose", [(F_BASE, "        X = self._check_new_values(X, features=self.qualitative_features)\n", "        if self.verbose:\n            X = self._check_new_values(X, features=self.qualitative_features)\n")], "R-check-before-replace", "dominates"),
     M("rejecting assert removed", [(F_BASE, "            assert len(unexpected) == 0, (\n                \" - [Discretizer] Unexpected value! The ordering for values: \"\n                f\"{str(list(unexpected))} of feature '{feature}' was not provided. \"\n                \"There might be new values in your test/dev set. Consider taking a bigger \"\n                f\"test/dev set or dropping the column {feature}.\"\n            )\n", "            _ = unexpected\n")], "R-check-before-replace", "rejecting"),
     M("default applied to features without default group", [(F_BASE, "                    and val != self.str_nan\n                    and self.str_default in self.values_orders[feature].values()\n", "                    and val != self.str_nan\n")], "R-default-formula", quick=True),
